@@ -67,6 +67,15 @@ CHECKS.update({
   note="Depth-bounded, quiescent points only (gauge between scheduling points is not enumerated); HSMS-SS only; Reconnects() checked for the active role. Trusted: synctest, sim, ledger derived from the doc comments."),
 })
 
+CHECKS.update({
+ "C17": dict(engine="E2-bubble + E1-enum", cat="model_checking", tech=E2 + "; assembler: explicit-state tree search on the real assembler.accept with an injected clock",
+  text="Outbound: every encoded body length 0..733 x role x device ids {0,1,0x7FFF} x header grid sent by a real secs1 connection to an independent SEMI E4 reference peer; every transmission compared byte for byte with ref/e4 (block size <= 244, numbering 1..N, E-bit, R-bit, device id, checksum, concatenated body = SECS-II encoding). Inbound (a): all block histories of depth <= 6/7 over 14 symbols (valid next, duplicate, skipped number, changed stream/function/W/system bytes, wrong device, wrong direction, block 0 with/without E, fresh first block, previous number with E, T4 gap) on the real assembler with an injected clock: exact reference (E4 9.4.4), rule-free justification of every delivery, clean message after every prefix. Inbound (b): line level depth 3/4 over 19 symbols incl. bad checksum, bad length byte, truncated block, ENQ+silence: EOT/ACK/NAK, deliveries, State(), socket stays open.",
+  note="Bounded by the stated depths; the receive rule for an out-of-sequence block (abandon the partial, then treat as a first block) is taken from assembler.go's doc comments; no interleaved multi-block transactions. Trusted: ref/e4, peer/e4, synctest, sim."),
+ "C18": dict(engine="E2-bubble", cat="model_checking", tech=E2 + " (fault enumeration through a protocol-aware middlebox between two real secs1 endpoints)",
+  text="Two real secs1 connections (equipment/master, host/slave) in one bubble joined by a middlebox that forwards line units (handshake characters / block transmissions) under a fault plan: 54 scenarios {E->H, H->E, both at once} x {1,2,3 blocks} x RTY {0,1,3} x W, each sending two token-carrying messages; all single-fault plans over the first 12 units per direction (drop, replace by ENQ/EOT/ACK/NAK/0x00, flip a header/body/checksum byte, truncate, delay T1+d / T2+d) and all two-fault plans on a scenario subset. Oracle: every send that returned nil is delivered exactly once and intact, in order per direction; nothing delivered twice or altered; each block attempted at most RTY+1 times, then the send fails and the link recovers; contention resolves master-first; every call returns before the virtual horizon.",
+  note="Two-fault plans exclude forged ACKs and T2 delays (a stale ACK is undetectable by E4 itself) and length-byte corruption; no overlapping writers on one connection (a sync.Mutex wait is not a durable block under synctest). A violation is reported only if it reproduces 3/3."),
+})
+
 PENDING = {}
 
 
